@@ -441,7 +441,7 @@ def main(tier):
     prog = H.get_program(features=FEATURES)
     rng = H.rng(PROP)
     limit = scale_limit(prog)
-    D = 6 if tier == 'quick' else 16
+    D = 8 if tier == 'quick' else 16
     tasks = []
     for L in range(0, D + 1):
         for (lo, hi) in ((-c04.SCALE_LIMIT, -41), (-40, 60), (61, c04.SCALE_LIMIT)):
@@ -456,13 +456,13 @@ def main(tier):
     tasks.append({'kind': 'json_de_err'})
     tasks.append({'kind': 'option', 'N': 0, 'what': 'none_de'})
     tasks.append({'kind': 'option', 'N': 0, 'what': 'none_ser'})
-    for N in range(1, (5 if tier == 'quick' else 7) + 1):
+    for N in range(1, (6 if tier == 'quick' else 8) + 1):
         tasks.append({'kind': 'option', 'N': N, 'what': 'some'})
     tasks.append({'kind': 'map', 'good': True})
     tasks.append({'kind': 'map', 'good': False})
     rep.required_labels = {'string round trip', 'integer tokens', 'float tokens', 'json serialize', 'json deserialize', 'null', 'json number text', 'map access'}
     rep.bounds = {'digits': '0..%d symbolic digits and sign' % D, 'scale': 'symbolic over [-10^15, 10^15] for the round trips; the whole i64 range for the JSON adapter limit check',
-                  'SERDE_SCALE_LIMIT read from the dump': limit, 'JSON number texts': 'every ASCII text of length 1..%d that satisfies the JSON number grammar' % (5 if tier == 'quick' else 7)}
+                  'SERDE_SCALE_LIMIT read from the dump': limit, 'JSON number texts': 'every ASCII text of length 1..%d that satisfies the JSON number grammar' % (6 if tier == 'quick' else 8)}
     rep.assumptions = ['serde contracts: collect_str(x) delivers Display(x); a string-form deserializer calls visit_str with that text; the arbitrary-precision JSON map yields the key "$serde_json::private::Number" then the number text',
                        'serde_json contracts: Number::from_str succeeds iff the text is a JSON number and carries it verbatim; Number::as_str / serialize hand that text on; Option<Number>::deserialize yields None for null',
                        'the inner BigDecimal::deserialize of the JSON adapter returns an arbitrary decimal']
